@@ -248,3 +248,341 @@ Definition buf_write_to_ref (s_buf : gslice) (s_off s_lastRead : Z) (w : unit) (
     | BPanic p_ st_ => let '(s_buf, s_off, s_lastRead) := st_ in BPanic p_ (s_buf, s_off, s_lastRead, tr_)
     end.
 
+(* ---- the write side.  The generated code does not track whether s.buf is nil (s.buf == nil is the oracle
+   f_isnil), so a state is compared with the model's up to that flag: [forget] ---- *)
+Definition forget (s : pc) : pc := mkpc (data s) (off s) (cap s) false (last_read s).
+
+(* grow(n) returns the write index m with len(s.buf) = m + n; the model's [grow] is grow(n) followed by
+   s.buf = s.buf[:m] (the bytes m .. m+n-1 are overwritten by every caller): the generated result is read as
+   (state with the buffer cut back to m, m, len(s.buf)) *)
+Definition grow_gen_view (r : bres Z bstate) : gres * (Z * Z) :=
+  match r with
+  | BOk m (b, o, l) => (GOk (mkpc (ztake m (fst b)) o (sl_cap b) false l), (m, sl_len b))
+  | BRange _ => (GPanic PRange, (0, 0))
+  | BPanic p _ => (GPanic (panic_of p), (0, 0))
+  end.
+Definition grow_model_view (n : Z) (g : gres) : gres * (Z * Z) :=
+  match g with
+  | GOk s => (GOk (forget s), (blen s, blen s + n))
+  | GPanic q => (GPanic q, (0, 0))
+  end.
+
+(* a step of the model, up to the nil flag; after a panic only the panic is compared (the model keeps the
+   state from before the call there, the code may already have reset an empty buffer) *)
+Definition wview (x : pc * result) : option pc * result :=
+  if halts (snd x) then (None, snd x) else (Some (forget (fst x)), snd x).
+
+(* the state is well formed for the write side: 0 <= off <= len, and a nil buffer has no array *)
+Definition st_wf (nil : bool) (st : bstate) : bool :=
+  let '(b, o, _) := st in (0 <=? o) && (o <=? sl_len b) && (if nil then sl_cap b =? 0 else true).
+
+(* PrintCtx.tryGrowByReslice  (BOk results state | BRange state | BPanic v state) *)
+Definition buf_try_grow_ref (s_buf : gslice) (s_off s_lastRead : Z) (n : Z) : bres (Z * bool) bstate :=
+  let l := (sl_len s_buf) in
+  if (n <=? ((sl_cap s_buf) - l))
+  then match sl_to s_buf (l + n) with
+    | None => BRange (s_buf, s_off, s_lastRead)
+    | Some r1_ => let s_buf := r1_ in
+      BOk ((l, true)) (s_buf, s_off, s_lastRead)
+    end
+  else BOk ((0, false)) (s_buf, s_off, s_lastRead).
+
+(* PrintCtx.grow  (BOk results state | BRange state | BPanic v state) *)
+Definition buf_grow_int_ref (s_buf : gslice) (s_off s_lastRead : Z) (f_isnil : gslice -> bool) (f_growSlice : gslice -> Z -> bres gslice unit) (n : Z) : bres Z bstate :=
+  let m := (buf_len_ref s_buf s_off s_lastRead) in
+  if ((m =? 0) && (negb (s_off =? 0)))
+  then match buf_reset_ref s_buf s_off s_lastRead with
+    | BOk _ st_ => let '(s_buf, s_off, s_lastRead) := st_ in
+      match buf_try_grow_ref s_buf s_off s_lastRead n with
+      | BOk r_ st_ => let '(s_buf, s_off, s_lastRead) := st_ in let '(i, ok) := r_ in
+        if ok
+        then BOk (i) (s_buf, s_off, s_lastRead)
+        else if ((f_isnil s_buf) && (n <=? 64))
+        then match sl_make n 64 with
+        | None => BRange (s_buf, s_off, s_lastRead)
+        | Some r1_ => let s_buf := r1_ in
+          BOk (0) (s_buf, s_off, s_lastRead)
+        end
+        else let c := (sl_cap s_buf) in
+        if (n <=? ((Z.quot c 2) - m))
+        then match sl_from s_buf s_off with
+        | None => BRange (s_buf, s_off, s_lastRead)
+        | Some r2_ => match sl_copy_at s_buf 0 (sl_bytes r2_) with
+          | None => BRange (s_buf, s_off, s_lastRead)
+          | Some r3_ => let '(r4_, s_buf) := r3_ in
+            let s_off := 0 in
+            match sl_to s_buf (m + n) with
+            | None => BRange (s_buf, s_off, s_lastRead)
+            | Some r5_ => let s_buf := r5_ in
+              BOk (m) (s_buf, s_off, s_lastRead)
+            end
+          end
+        end
+        else if (((9223372036854775807 - c) - n) <? c)
+        then BPanic p_toolarge (s_buf, s_off, s_lastRead)
+        else match sl_from s_buf s_off with
+        | None => BRange (s_buf, s_off, s_lastRead)
+        | Some r6_ => match f_growSlice r6_ (s_off + n) with
+          | BOk r_ st_ => let s_buf := r_ in
+            let s_off := 0 in
+            match sl_to s_buf (m + n) with
+            | None => BRange (s_buf, s_off, s_lastRead)
+            | Some r7_ => let s_buf := r7_ in
+              BOk (m) (s_buf, s_off, s_lastRead)
+            end
+          | BRange st_ => BRange (s_buf, s_off, s_lastRead)
+          | BPanic p_ st_ => BPanic p_ (s_buf, s_off, s_lastRead)
+          end
+        end
+      | BRange st_ => let '(s_buf, s_off, s_lastRead) := st_ in BRange (s_buf, s_off, s_lastRead)
+      | BPanic p_ st_ => let '(s_buf, s_off, s_lastRead) := st_ in BPanic p_ (s_buf, s_off, s_lastRead)
+      end
+    | BRange st_ => let '(s_buf, s_off, s_lastRead) := st_ in BRange (s_buf, s_off, s_lastRead)
+    | BPanic p_ st_ => let '(s_buf, s_off, s_lastRead) := st_ in BPanic p_ (s_buf, s_off, s_lastRead)
+    end
+  else match buf_try_grow_ref s_buf s_off s_lastRead n with
+    | BOk r_ st_ => let '(s_buf, s_off, s_lastRead) := st_ in let '(i, ok) := r_ in
+      if ok
+      then BOk (i) (s_buf, s_off, s_lastRead)
+      else if ((f_isnil s_buf) && (n <=? 64))
+      then match sl_make n 64 with
+      | None => BRange (s_buf, s_off, s_lastRead)
+      | Some r8_ => let s_buf := r8_ in
+        BOk (0) (s_buf, s_off, s_lastRead)
+      end
+      else let c := (sl_cap s_buf) in
+      if (n <=? ((Z.quot c 2) - m))
+      then match sl_from s_buf s_off with
+      | None => BRange (s_buf, s_off, s_lastRead)
+      | Some r9_ => match sl_copy_at s_buf 0 (sl_bytes r9_) with
+        | None => BRange (s_buf, s_off, s_lastRead)
+        | Some r10_ => let '(r11_, s_buf) := r10_ in
+          let s_off := 0 in
+          match sl_to s_buf (m + n) with
+          | None => BRange (s_buf, s_off, s_lastRead)
+          | Some r12_ => let s_buf := r12_ in
+            BOk (m) (s_buf, s_off, s_lastRead)
+          end
+        end
+      end
+      else if (((9223372036854775807 - c) - n) <? c)
+      then BPanic p_toolarge (s_buf, s_off, s_lastRead)
+      else match sl_from s_buf s_off with
+      | None => BRange (s_buf, s_off, s_lastRead)
+      | Some r13_ => match f_growSlice r13_ (s_off + n) with
+        | BOk r_ st_ => let s_buf := r_ in
+          let s_off := 0 in
+          match sl_to s_buf (m + n) with
+          | None => BRange (s_buf, s_off, s_lastRead)
+          | Some r14_ => let s_buf := r14_ in
+            BOk (m) (s_buf, s_off, s_lastRead)
+          end
+        | BRange st_ => BRange (s_buf, s_off, s_lastRead)
+        | BPanic p_ st_ => BPanic p_ (s_buf, s_off, s_lastRead)
+        end
+      end
+    | BRange st_ => let '(s_buf, s_off, s_lastRead) := st_ in BRange (s_buf, s_off, s_lastRead)
+    | BPanic p_ st_ => let '(s_buf, s_off, s_lastRead) := st_ in BPanic p_ (s_buf, s_off, s_lastRead)
+    end.
+
+(* PrintCtx.Grow  (BOk results state | BRange state | BPanic v state) *)
+Definition buf_grow_ref (s_buf : gslice) (s_off s_lastRead : Z) (f_isnil : gslice -> bool) (f_growSlice : gslice -> Z -> bres gslice unit) (n : Z) : bres unit bstate :=
+  if (n <? 0)
+  then BPanic [x6c;x6f;x67;x67;x2f;x73;x6c;x6f;x67;x2e;x50;x72;x69;x6e;x74;x43;x74;x78;x2e;x47;x72;x6f;x77;x3a;x20;x6e;x65;x67;x61;x74;x69;x76;x65;x20;x63;x6f;x75;x6e;x74] (s_buf, s_off, s_lastRead)
+  else match buf_grow_int_ref s_buf s_off s_lastRead f_isnil f_growSlice n with
+    | BOk r_ st_ => let '(s_buf, s_off, s_lastRead) := st_ in let m := r_ in
+      match sl_to s_buf m with
+      | None => BRange (s_buf, s_off, s_lastRead)
+      | Some r1_ => let s_buf := r1_ in
+        BOk tt (s_buf, s_off, s_lastRead)
+      end
+    | BRange st_ => let '(s_buf, s_off, s_lastRead) := st_ in BRange (s_buf, s_off, s_lastRead)
+    | BPanic p_ st_ => let '(s_buf, s_off, s_lastRead) := st_ in BPanic p_ (s_buf, s_off, s_lastRead)
+    end.
+
+(* PrintCtx.Write  (BOk results state | BRange state | BPanic v state) *)
+Definition buf_write_ref (s_buf : gslice) (s_off s_lastRead : Z) (f_isnil : gslice -> bool) (f_growSlice : gslice -> Z -> bres gslice unit) (p : gslice) : bres (Z * err) bstate :=
+  let n := 0 in
+  let err := ENil in
+  let s_lastRead := 0 in
+  match buf_try_grow_ref s_buf s_off s_lastRead (sl_len p) with
+    | BOk r_ st_ => let '(s_buf, s_off, s_lastRead) := st_ in let '(m, ok) := r_ in
+      if (negb ok)
+      then match buf_grow_int_ref s_buf s_off s_lastRead f_isnil f_growSlice (sl_len p) with
+      | BOk r_ st_ => let '(s_buf, s_off, s_lastRead) := st_ in let m := r_ in
+        match sl_copy_at s_buf m (sl_bytes p) with
+        | None => BRange (s_buf, s_off, s_lastRead)
+        | Some r1_ => let '(r2_, s_buf) := r1_ in
+          BOk ((r2_, ENil)) (s_buf, s_off, s_lastRead)
+        end
+      | BRange st_ => let '(s_buf, s_off, s_lastRead) := st_ in BRange (s_buf, s_off, s_lastRead)
+      | BPanic p_ st_ => let '(s_buf, s_off, s_lastRead) := st_ in BPanic p_ (s_buf, s_off, s_lastRead)
+      end
+      else match sl_copy_at s_buf m (sl_bytes p) with
+      | None => BRange (s_buf, s_off, s_lastRead)
+      | Some r3_ => let '(r4_, s_buf) := r3_ in
+        BOk ((r4_, ENil)) (s_buf, s_off, s_lastRead)
+      end
+    | BRange st_ => let '(s_buf, s_off, s_lastRead) := st_ in BRange (s_buf, s_off, s_lastRead)
+    | BPanic p_ st_ => let '(s_buf, s_off, s_lastRead) := st_ in BPanic p_ (s_buf, s_off, s_lastRead)
+    end.
+
+(* PrintCtx.WriteString  (BOk results state | BRange state | BPanic v state) *)
+Definition buf_write_string_ref (s_buf : gslice) (s_off s_lastRead : Z) (f_isnil : gslice -> bool) (f_growSlice : gslice -> Z -> bres gslice unit) (str : bytes) : bres (Z * err) bstate :=
+  let n := 0 in
+  let err := ENil in
+  let s_lastRead := 0 in
+  match buf_try_grow_ref s_buf s_off s_lastRead (Z.of_nat (List.length str)) with
+    | BOk r_ st_ => let '(s_buf, s_off, s_lastRead) := st_ in let '(m, ok) := r_ in
+      if (negb ok)
+      then match buf_grow_int_ref s_buf s_off s_lastRead f_isnil f_growSlice (Z.of_nat (List.length str)) with
+      | BOk r_ st_ => let '(s_buf, s_off, s_lastRead) := st_ in let m := r_ in
+        match sl_copy_at s_buf m str with
+        | None => BRange (s_buf, s_off, s_lastRead)
+        | Some r1_ => let '(r2_, s_buf) := r1_ in
+          BOk ((r2_, ENil)) (s_buf, s_off, s_lastRead)
+        end
+      | BRange st_ => let '(s_buf, s_off, s_lastRead) := st_ in BRange (s_buf, s_off, s_lastRead)
+      | BPanic p_ st_ => let '(s_buf, s_off, s_lastRead) := st_ in BPanic p_ (s_buf, s_off, s_lastRead)
+      end
+      else match sl_copy_at s_buf m str with
+      | None => BRange (s_buf, s_off, s_lastRead)
+      | Some r3_ => let '(r4_, s_buf) := r3_ in
+        BOk ((r4_, ENil)) (s_buf, s_off, s_lastRead)
+      end
+    | BRange st_ => let '(s_buf, s_off, s_lastRead) := st_ in BRange (s_buf, s_off, s_lastRead)
+    | BPanic p_ st_ => let '(s_buf, s_off, s_lastRead) := st_ in BPanic p_ (s_buf, s_off, s_lastRead)
+    end.
+
+(* PrintCtx.WriteByte  (BOk results state | BRange state | BPanic v state) *)
+Definition buf_write_byte_ref (s_buf : gslice) (s_off s_lastRead : Z) (f_isnil : gslice -> bool) (f_growSlice : gslice -> Z -> bres gslice unit) (c : Z) : bres err bstate :=
+  let s_lastRead := 0 in
+  match buf_try_grow_ref s_buf s_off s_lastRead 1 with
+    | BOk r_ st_ => let '(s_buf, s_off, s_lastRead) := st_ in let '(m, ok) := r_ in
+      if (negb ok)
+      then match buf_grow_int_ref s_buf s_off s_lastRead f_isnil f_growSlice 1 with
+      | BOk r_ st_ => let '(s_buf, s_off, s_lastRead) := st_ in let m := r_ in
+        match sl_set s_buf m c with
+        | None => BRange (s_buf, s_off, s_lastRead)
+        | Some r1_ => let s_buf := r1_ in
+          BOk (ENil) (s_buf, s_off, s_lastRead)
+        end
+      | BRange st_ => let '(s_buf, s_off, s_lastRead) := st_ in BRange (s_buf, s_off, s_lastRead)
+      | BPanic p_ st_ => let '(s_buf, s_off, s_lastRead) := st_ in BPanic p_ (s_buf, s_off, s_lastRead)
+      end
+      else match sl_set s_buf m c with
+      | None => BRange (s_buf, s_off, s_lastRead)
+      | Some r2_ => let s_buf := r2_ in
+        BOk (ENil) (s_buf, s_off, s_lastRead)
+      end
+    | BRange st_ => let '(s_buf, s_off, s_lastRead) := st_ in BRange (s_buf, s_off, s_lastRead)
+    | BPanic p_ st_ => let '(s_buf, s_off, s_lastRead) := st_ in BPanic p_ (s_buf, s_off, s_lastRead)
+    end.
+
+(* PrintCtx.WriteRune  (BOk results state | BRange state | BPanic v state) *)
+Definition buf_write_rune_ref (s_buf : gslice) (s_off s_lastRead : Z) (f_isnil : gslice -> bool) (f_growSlice : gslice -> Z -> bres gslice unit) (r : Z) : bres (Z * err) bstate :=
+  let n := 0 in
+  let err := ENil in
+  if ((r mod 4294967296) <? 128)
+  then match buf_write_byte_ref s_buf s_off s_lastRead f_isnil f_growSlice (r mod 256) with
+    | BOk r_ st_ => let '(s_buf, s_off, s_lastRead) := st_ in let _ := r_ in
+      BOk ((1, ENil)) (s_buf, s_off, s_lastRead)
+    | BRange st_ => let '(s_buf, s_off, s_lastRead) := st_ in BRange (s_buf, s_off, s_lastRead)
+    | BPanic p_ st_ => let '(s_buf, s_off, s_lastRead) := st_ in BPanic p_ (s_buf, s_off, s_lastRead)
+    end
+  else let s_lastRead := 0 in
+  match buf_try_grow_ref s_buf s_off s_lastRead 4 with
+    | BOk r_ st_ => let '(s_buf, s_off, s_lastRead) := st_ in let '(m, ok) := r_ in
+      if (negb ok)
+      then match buf_grow_int_ref s_buf s_off s_lastRead f_isnil f_growSlice 4 with
+      | BOk r_ st_ => let '(s_buf, s_off, s_lastRead) := st_ in let m := r_ in
+        match sl_to s_buf m with
+        | None => BRange (s_buf, s_off, s_lastRead)
+        | Some r1_ => match sl_append_in r1_ (encode_rune r) with
+          | None => BRange (s_buf, s_off, s_lastRead)
+          | Some r2_ => let s_buf := r2_ in
+            BOk ((((sl_len s_buf) - m), ENil)) (s_buf, s_off, s_lastRead)
+          end
+        end
+      | BRange st_ => let '(s_buf, s_off, s_lastRead) := st_ in BRange (s_buf, s_off, s_lastRead)
+      | BPanic p_ st_ => let '(s_buf, s_off, s_lastRead) := st_ in BPanic p_ (s_buf, s_off, s_lastRead)
+      end
+      else match sl_to s_buf m with
+      | None => BRange (s_buf, s_off, s_lastRead)
+      | Some r3_ => match sl_append_in r3_ (encode_rune r) with
+        | None => BRange (s_buf, s_off, s_lastRead)
+        | Some r4_ => let s_buf := r4_ in
+          BOk ((((sl_len s_buf) - m), ENil)) (s_buf, s_off, s_lastRead)
+        end
+      end
+    | BRange st_ => let '(s_buf, s_off, s_lastRead) := st_ in BRange (s_buf, s_off, s_lastRead)
+    | BPanic p_ st_ => let '(s_buf, s_off, s_lastRead) := st_ in BPanic p_ (s_buf, s_off, s_lastRead)
+    end.
+
+(* ---- ReadFrom: the reader is a script of answers (Model/Buffer.v).  r.Read(p) with p = s.buf[i:cap(s.buf)]:
+   the window starts at cap(s.buf) - len(p) of the array of s.buf; the answer's bytes (at most len(p)) are
+   stored there, i.e. in the array of s.buf, whose length is unchanged ---- *)
+Definition err_eqb (a b : err) : bool :=
+  match a, b with
+  | ENil, ENil | EEOF, EEOF | EUnreadByte, EUnreadByte | EUnreadRune, EUnreadRune | EShortWrite, EShortWrite | EUser, EUser => true
+  | _, _ => false
+  end.
+Definition rerr_err (e : rerr) : err := match e with RNil => ENil | REOF => EEOF | RErr => EUser end.
+Definition rd_read (s_buf : gslice) (script : list rresp) (p : gslice) : bres (Z * err) (gslice * list rresp) :=
+  match script with
+  | [] => BOk (0, EEOF) (s_buf, [])
+  | RNeg :: t => BOk (-1, ENil) (s_buf, t)
+  | RData bs e :: t =>
+      let got := firstn (List.length (fst p)) bs in
+      let start := Z.to_nat (sl_cap s_buf - sl_len p) in
+      let all := sl_all s_buf in
+      let all' := firstn start all ++ got ++ skipn (start + List.length got) all in
+      BOk (Z.of_nat (List.length got), rerr_err e)
+          ((firstn (List.length (fst s_buf)) all', skipn (List.length (fst s_buf)) all'), t)
+  end.
+Definition bview_rf (nil : bool) (r : bres (Z * err) (bstate * list rresp)) : pc * result :=
+  match r with
+  | BOk v (st, _) => (abs_pc nil st, Res [fst v] [] (snd v))
+  | BRange (st, _) => (abs_pc nil st, Panicked PRange)
+  | BPanic m (st, _) => (abs_pc nil st, Panicked (panic_of m))
+  end.
+
+(* PrintCtx.ReadFrom  (BOk results state | BRange state | BPanic v state) *)
+Definition buf_read_from_ref (s_buf : gslice) (s_off s_lastRead : Z) (f_isnil : gslice -> bool) (f_growSlice : gslice -> Z -> bres gslice unit) (r : unit) (script_ : list rresp) : bres (Z * err) (bstate * list rresp) :=
+  let n := 0 in
+  let err := ENil in
+  let s_lastRead := 0 in
+  match go_loop_b (S (List.length script_)) (fun st_ => let '(s_buf, n, err, s_off, s_lastRead, script_) := st_ in
+        match buf_grow_int_ref s_buf s_off s_lastRead f_isnil f_growSlice 512 with
+        | BOk r_ st_ => let '(s_buf, s_off, s_lastRead) := st_ in let i := r_ in
+          match sl_to s_buf i with
+          | None => LbEnd (BRange (s_buf, s_off, s_lastRead, script_))
+          | Some r1_ => let s_buf := r1_ in
+            match sl_range s_buf i (sl_cap s_buf) with
+            | None => LbEnd (BRange (s_buf, s_off, s_lastRead, script_))
+            | Some r2_ => match rd_read s_buf script_ r2_ with
+              | BOk r_ st_ => let '(s_buf, script_) := st_ in let '(m, e) := r_ in
+                if (m <? 0)
+                then LbEnd (BPanic p_negread (s_buf, s_off, s_lastRead, script_))
+                else match sl_to s_buf (i + m) with
+                | None => LbEnd (BRange (s_buf, s_off, s_lastRead, script_))
+                | Some r3_ => let s_buf := r3_ in
+                  let n := (n + m) in
+                  if (err_eqb e EEOF)
+                  then LbEnd (BOk ((n, ENil)) (s_buf, s_off, s_lastRead, script_))
+                  else if (negb (err_is_enil e))
+                  then LbEnd (BOk ((n, e)) (s_buf, s_off, s_lastRead, script_))
+                  else LbNext (s_buf, n, err, s_off, s_lastRead, script_)
+                end
+              | BRange st_ => let '(s_buf, script_) := st_ in LbEnd (BRange (s_buf, s_off, s_lastRead, script_))
+              | BPanic p_ st_ => let '(s_buf, script_) := st_ in LbEnd (BPanic p_ (s_buf, s_off, s_lastRead, script_))
+              end
+            end
+          end
+        | BRange st_ => let '(s_buf, s_off, s_lastRead) := st_ in LbEnd (BRange (s_buf, s_off, s_lastRead, script_))
+        | BPanic p_ st_ => let '(s_buf, s_off, s_lastRead) := st_ in LbEnd (BPanic p_ (s_buf, s_off, s_lastRead, script_))
+        end) (s_buf, n, err, s_off, s_lastRead, script_) with
+    | None => BRange (s_buf, s_off, s_lastRead, script_)
+    | Some (LrEnd r_) => r_
+    | Some (LrBreak (s_buf, n, err, s_off, s_lastRead, script_)) => BOk (n, err) (s_buf, s_off, s_lastRead, script_)
+    end.
